@@ -151,8 +151,9 @@ let run_line (line : string) : string option =
     let sc = scanner_of_string (Sexp.atom (List.hd (f "scanner"))) in
     let buf = Buffer.create 512 in
     Buffer.add_string buf ("(" ^ id);
-    let lx0 = c_with_metrics (c_new sc text) m in
-    (match c_with_filter lx0 (fspec_of_sexp (List.hd (f "filter"))) with
+    (match (match c_with_metrics (c_new sc text) m with
+            | Ok lx0 -> c_with_filter lx0 (fspec_of_sexp (List.hd (f "filter")))
+            | Panic -> Panic | Fuel -> Fuel) with
      | Ok lx ->
        let sink = Sexp.atom (List.hd (f "sink")) = "1" in
        let ctx = List.fold_left (fun c t -> ctx_pushed c (nat t)) (ctx_new sink) (f "pushed") in
